@@ -184,9 +184,9 @@ func planFor(d deviation) (*rgmssl.Plan, *bool, bool, string) {
 			return []rgmssl.Out{{RecType: rgmssl.RecAlert, Data: []byte{1, []byte{41, 90, 100, 112}[d.K%4]}}, o}
 		case "alert_flood":
 			// a few warning alerts may be tolerated (see alert_warning); a peer that sends them without end keeps the endpoint
-			// busy for as long as it likes, so a long run of them (64..2063 in a row) must end the handshake
+			// busy for as long as it likes, so a long run of them (64..263 in a row) must end the handshake
 			var outs []rgmssl.Out
-			for i := 0; i < 64+d.K%2000; i++ {
+			for i := 0; i < 64+d.K%200; i++ {
 				outs = append(outs, rgmssl.Out{RecType: rgmssl.RecAlert, Data: []byte{1, []byte{41, 90, 100, 112}[(d.K+i*int(d.Val%4))%4]}})
 			}
 			return append(outs, o)
